@@ -641,6 +641,11 @@ KNOWN_CASES = {
         "main.go": 'package main\n\nfunc main() { println(string(InitApp().S.T)) }\n',
         "wire.go": '//go:build wireinject\n\npackage main\n\nimport "github.com/google/wire"\n\nfunc InitApp() *App {\n\twire.Build(NewTag, wire.Struct(new(Svc), "*"), NewApp)\n\treturn nil\n}\n'},
         what="sig"),
+    "KF-C14-17": dict(files={
+        "t.go": 'package main\n\ntype Hub struct {\n\tOut interface {\n\t\tWrite(p []byte) (int, error)\n\t}\n}\ntype B struct{}\n\nfunc (B) Write(p []byte) (int, error) { return len(p), nil }\nfunc NewOut() interface {\n\tWrite(p []byte) (int, error)\n} {\n\treturn B{}\n}\n',
+        "main.go": 'package main\n\nfunc main() { println(InitApp() != nil) }\n',
+        "wire.go": '//go:build wireinject\n\npackage main\n\nimport "github.com/google/wire"\n\nfunc InitApp() *Hub {\n\twire.Build(NewOut, wire.Struct(new(Hub), "*"))\n\treturn nil\n}\n'},
+        what="vet"),
     "KF-C14-15": dict(files={
         "go-conf/conf.go": 'package conf\n\ntype Conf struct{ S string }\n\nfunc NewConf() *Conf { return &Conf{S: "c"} }\n',
         "t.go": 'package main\n\nimport "vscratch/NAME/go-conf"\n\ntype App struct{ C *conf.Conf }\n\nfunc NewApp(c *conf.Conf) *App { return &App{C: c} }\n',
@@ -726,6 +731,28 @@ DIRECTED = {
         "t.go": 'package main\n\ntype Port int\ntype Seed int\ntype Tick int\n\ntype Clock struct{ t Tick }\n\nfunc NewClock(t Tick) *Clock { return &Clock{t: t} }\n\ntype Conf struct {\n\tport Port\n\tName string\n}\n\nfunc NewConf(s Seed) *Conf { return &Conf{port: Port(s) + 1000, Name: "n"} }\n\ntype Store struct{ P Port }\n\nfunc NewStore(p Port) *Store { return &Store{P: p} }\n\ntype Svc struct {\n\tclock *Clock\n\tstore *Store\n}\n',
         "main.go": 'package main\n\nimport "reflect"\n\n// arguments are matched by type: the property fixes the set of argument types, not their order\nfunc call(f any, args ...any) []reflect.Value {\n\tfv := reflect.ValueOf(f)\n\tin := make([]reflect.Value, fv.Type().NumIn())\n\tfor i := range in {\n\t\tfor _, a := range args {\n\t\t\tif reflect.TypeOf(a) == fv.Type().In(i) {\n\t\t\t\tin[i] = reflect.ValueOf(a)\n\t\t\t}\n\t\t}\n\t}\n\treturn fv.Call(in)\n}\n\nfunc main() {\n\ts := call(InitApp, Seed(3), Tick(7))[0].Interface().(*Svc)\n\tprintln(int(s.clock.t), int(s.store.P))\n}\n',
         "wire.go": '//go:build wireinject\n\npackage main\n\nimport "github.com/google/wire"\n\nfunc InitApp(s Seed, t Tick) *Svc {\n\twire.Build(NewClock, NewConf, wire.FieldsOf(new(*Conf), "port"), NewStore, wire.Struct(new(Svc), "*"))\n\treturn nil\n}\n'},
+    # field types that migrate has to spell in the constructor it writes for wire.Struct (repaired: function types, generic
+    # instances, aliases and struct types with parts from another package)
+    "struct_field_func_type": {
+        "sig/sig.go": 'package sig\n\ntype Event struct{ N int }\ntype Alias = Event\n',
+        "t.go": 'package main\n\nimport "vscratch/NAME/sig"\n\ntype Hub struct {\n\tF func(sig.Event, ...int) error\n\tG func()\n}\n\nfunc NewF() func(sig.Event, ...int) error { return nil }\nfunc NewG() func() { return nil }\n',
+        "main.go": 'package main\n\nfunc main() { h := InitHub(); println(h != nil) }\n',
+        "wire.go": '//go:build wireinject\n\npackage main\n\nimport "github.com/google/wire"\n\nfunc InitHub() *Hub {\n\twire.Build(NewF, NewG, wire.Struct(new(Hub), "*"))\n\treturn nil\n}\n'},
+    "struct_field_generic_instance": {
+        "sig/sig.go": 'package sig\n\ntype Event struct{ N int }\ntype Alias = Event\n',
+        "t.go": 'package main\n\nimport "vscratch/NAME/sig"\n\ntype Box[T any] struct{ V T }\ntype Hub struct{ B Box[sig.Event] }\n\nfunc NewB() Box[sig.Event] { return Box[sig.Event]{} }\n',
+        "main.go": 'package main\n\nfunc main() { h := InitHub(); println(h != nil) }\n',
+        "wire.go": '//go:build wireinject\n\npackage main\n\nimport "github.com/google/wire"\n\nfunc InitHub() *Hub {\n\twire.Build(NewB, wire.Struct(new(Hub), "*"))\n\treturn nil\n}\n'},
+    "struct_field_alias": {
+        "sig/sig.go": 'package sig\n\ntype Event struct{ N int }\ntype Alias = Event\n',
+        "t.go": 'package main\n\nimport "vscratch/NAME/sig"\n\ntype Hub struct{ A sig.Alias }\n\nfunc NewA() sig.Alias { return sig.Alias{} }\n',
+        "main.go": 'package main\n\nfunc main() { h := InitHub(); println(h != nil) }\n',
+        "wire.go": '//go:build wireinject\n\npackage main\n\nimport "github.com/google/wire"\n\nfunc InitHub() *Hub {\n\twire.Build(NewA, wire.Struct(new(Hub), "*"))\n\treturn nil\n}\n'},
+    "struct_field_struct_type": {
+        "sig/sig.go": 'package sig\n\ntype Event struct{ N int }\ntype Alias = Event\n',
+        "t.go": 'package main\n\nimport "vscratch/NAME/sig"\n\ntype Hub struct {\n\tS struct {\n\t\tsig.Event\n\t\tN int `json:"n"`\n\t}\n}\n\nfunc NewS() struct {\n\tsig.Event\n\tN int `json:"n"`\n} {\n\treturn struct {\n\t\tsig.Event\n\t\tN int `json:"n"`\n\t}{}\n}\n',
+        "main.go": 'package main\n\nfunc main() { h := InitHub(); println(h != nil) }\n',
+        "wire.go": '//go:build wireinject\n\npackage main\n\nimport "github.com/google/wire"\n\nfunc InitHub() *Hub {\n\twire.Build(NewS, wire.Struct(new(Hub), "*"))\n\treturn nil\n}\n'},
     "interface_value_nested_selector": {
         "streams/streams.go": 'package streams\n\nimport "bytes"\n\nvar Std = struct{ Out *bytes.Buffer }{Out: bytes.NewBufferString("buf")}\n',
         "t.go": 'package main\n\nimport "fmt"\n\ntype App struct{ S string }\n\nfunc NewApp(w fmt.Stringer) *App { return &App{S: w.String()} }\n',
